@@ -118,6 +118,38 @@ func copyBeforePublishAt(r *Run, p *Prog, w *ssa.Function, set *ssa.Call, suffix
 			}
 			okc = !fromParam && spreadIsParam
 			why = "published value = append(" + descr(ap.Call.Args[0]) + ", " + descr(ap.Call.Args[1]) + "...)"
+			// the buffer appended to is empty (a pooled slice that is put back as x[:0], or a fresh
+			// make with length 0): otherwise the destination receives leading bytes that are no
+			// part of the Write (make([]byte, n) in front of an n-byte event: n zero bytes)
+			var emptyBase func(v ssa.Value, depth int) bool
+			emptyBase = func(v ssa.Value, depth int) bool {
+				if depth > 4 {
+					return false
+				}
+				switch x := v.(type) {
+				case *ssa.Phi:
+					for _, e := range x.Edges {
+						if !emptyBase(e, depth+1) {
+							return false
+						}
+					}
+					return len(x.Edges) > 0
+				case *ssa.MakeSlice:
+					k, isC := constInt(x.Len)
+					return isC && k == 0
+				case *ssa.Slice:
+					if x.High != nil {
+						k, isC := constInt(x.High)
+						return isC && k == 0
+					}
+					return false
+				}
+				return emptyPooledSlice(p, v)
+			}
+			if okc && !emptyBase(ap.Call.Args[0], 0) {
+				okc = false
+				why = "the copy is appended to " + descr(ap.Call.Args[0]) + ", which is not provably empty: the published buffer can start with bytes that are no part of p"
+			}
 			// … on EVERY path to the publication: no path reaches Set without passing the copying store
 			if okc {
 				var copyStore ssa.Instruction
@@ -257,6 +289,7 @@ func checkC11(r *Run) {
 	ruleDrainBeforeExit(r, p, "DRAIN", "Waiter")
 	ruleCloseOrder(r, p, "CLOSE")
 	ruleFatalCloses(r, p, "FATAL")
+	ruleMultiKeepsEveryWriter(r, p, "FATAL") // every writer handed to MultiLevelWriter is in the list Close walks
 	ruleA20(r, p, "A20")
 	ruleA21(r, p, "A21")
 	ruleAlertWiring(r, p, "ALERT")
